@@ -189,6 +189,40 @@ def check(ctx):
         runs += 2
         if sorted(os.listdir(d1)) != sorted(os.listdir(d2)) or any(open(os.path.join(d1, f), "rb").read() != open(os.path.join(d2, f), "rb").read() for f in os.listdir(d1)):
             bad.append({"what": "sam toPairAlign to a directory: files differ between 1 and 8 threads"})
+        # a reader that is slower than the writer: more output than a pipe holds (64 KiB), read only after a pause - the bytes
+        # that arrive, and the exit status, are those of the run into a file (what is still buffered when the command returns is lost)
+        import subprocess, time
+        bref = gen.rand_seq(rng, 12, "ACGT")
+        bigaln = os.path.join(tmp, "big.fasta")
+        with open(bigaln, "wb") as fh:
+            fh.write(gen.layout(rng, [("b%d" % i, gen.mutate(rng, bref, p_sub=0.25, p_amb=0.1, p_gap=0.0, p_lower=0.0)) for i in range(4500)], "plain"))
+        brefp = os.path.join(tmp, "bigref.fasta")
+        open(brefp, "wb").write(gen.layout(rng, [("r", bref)], "plain"))
+        for name, argv in (("snps", ["snps", "-r", brefp, "-q", bigaln]), ("updown list", ["updown", "list", "-r", brefp, "-q", bigaln]),
+                           ("closest", ["closest", "--query", bigaln, "--target", brefp])):
+            outp = os.path.join(tmp, "slow_out.txt")
+            cf = cm.run_binary(binp, argv + ["-o", outp], timeout=120)
+            want = open(outp, "rb").read() if os.path.exists(outp) else b""
+            for rep in range(2 if ctx.tier == "quick" else 6):
+                pr = subprocess.Popen([binp] + argv, stdout=subprocess.PIPE, stderr=subprocess.PIPE)
+                time.sleep(0.3)
+                got = b""
+                fd = pr.stdout.fileno()
+                while True:                      # 2 KiB every few milliseconds: the pipe stays full until the writer's very last byte
+                    chunk = os.read(fd, 2048)
+                    if not chunk:
+                        break
+                    got += chunk
+                    time.sleep(0.003)
+                pr.stderr.read()
+                rc = pr.wait()
+                runs += 1
+                if cf[0] != "ok" or rc != 0 or got != want:
+                    bad.append({"what": "%s: a slow reader of stdout receives %d bytes (exit status %s), the run with -o FILE wrote %d bytes (status %s)"
+                                        % (name, len(got), rc, len(want), cf[0]),
+                                "argv": argv[:1] + ["..."], "note": "4500 records of 12 columns; stdout read 2 KiB at a time, after 0.3 s",
+                                "tail_received": got[-200:].decode("latin1"), "tail_of_file": want[-200:].decode("latin1")})
+                    break
         # race detector
         racebin = cm.build_binary(ctx.log, race=True)
         if racebin:
